@@ -3,7 +3,7 @@
    Print Assumptions.  Model: M_Elf (elfexec GetBase/kernelBase/ProgramHeadersForMapping/
    HeaderForFileOffset, binutils findProgramHeader/computeBase/ObjAddr, nm addrInfo).
    Specification: S_Elf (loader model [image]/[load]/[pieceb], "address - bias", symbol lookup). *)
-From PV Require Import M_Elf S_Elf L_Elf L_ElfNm L_ElfSess.
+From PV Require Import M_Elf S_Elf L_Elf L_ElfNm L_ElfSess L_ElfConv.
 Open Scope Z_scope.
 
 (* [loaded_at ef bias m a p]: ef is ET_DYN/ET_EXEC, p is a linker-made PT_LOAD segment (file bytes,
@@ -177,6 +177,28 @@ Theorem open_elf_user_ok : forall ef s l o,
 Proof. exact open_elf_user_ok_lemma. Qed.
 Print Assumptions open_elf_user_ok.
 
+(* -- conversations with a symbolizer tool over one pipe.  [a2l_tool_ok]: the tool prints nothing
+      for the sentinel but "??" / "??:0" and no function line that looks like an address echo -- *)
+(* after every request the pipe is drained, so the k-th answer is the tool's answer for the k-th
+   address minus base, whatever was asked before (unknown addresses, inlined frames, repeats) *)
+Theorem conversation_paired : forall tool base nm addrs, a2l_tool_ok tool ->
+  a2l_conversation tool base nm [] addrs = (map (conv_answer tool base nm) addrs, []).
+Proof. exact conversation_paired_lemma. Qed.
+Print Assumptions conversation_paired.
+
+Theorem conversation_meets_spec : forall tool base raw hasnm addrs, a2l_tool_ok tool ->
+  let nm := if hasnm : bool then Some (shift_syms base raw) else None in
+  spec_conv tool base nm addrs (fst (a2l_conversation tool base nm [] addrs)) = true /\
+  snd (a2l_conversation tool base nm [] addrs) = [].
+Proof. exact conversation_meets_spec_lemma. Qed.
+Print Assumptions conversation_meets_spec.
+
+Theorem llvm_conversation_paired : forall tool base addrs,
+  llvm_conversation tool base [] addrs = (map (fun a => Ok (llvm_answer tool (tool_addr base a))) addrs, []) /\
+  spec_conv_llvm tool base addrs (fst (llvm_conversation tool base [] addrs)) = true.
+Proof. exact llvm_conversation_paired_lemma. Qed.
+Print Assumptions llvm_conversation_paired.
+
 (* -- the hypotheses are satisfiable -- *)
 (* exe_linux_64 of binutils_test.go (LOAD off 0 vaddr 0x400000 filesz 0x6fc R E; LOAD off 0xe10 vaddr
    0x600e10 filesz 0x230 memsz 0x238 RW) as a PIE image at bias 0x555555554000 *)
@@ -217,4 +239,14 @@ Example ex_session_data_then_text :
   session_run [ef] [SOpen 0 (b + 2097152) (b + 2101248) 0; SAddr 0 (b + 2100480);
                     SOpen 0 b (b + 4096) 0; SAddr 1 (b + 1024); SAddr 0 (b + 2100352)]
   = [OOpen None; OAddr (Ok 2100480); OOpen None; OAddr (Ok 1024); OAddr (Ok 2100352)].
+Proof. vm_compute. reflexivity. Qed.
+
+(* an unknown address (0x1010: the tool prints ?? / ??:0) in the middle of a conversation *)
+Example ex_conversation :
+  let tool : a2l_tool := fun x => if x =? 4416 then [("alpha", "a.c:10")] else if x =? 4480 then [("beta", "b.c:20")] else [] in
+  let b := 93824992231424 in
+  a2l_conversation tool b None [] [b + 4416; b + 4112; b + 4480; b + 4416]
+  = ([Ok [{| fr_func := "alpha"; fr_file := "a.c"; fr_line := 10 |}]; Ok [];
+      Ok [{| fr_func := "beta"; fr_file := "b.c"; fr_line := 20 |}];
+      Ok [{| fr_func := "alpha"; fr_file := "a.c"; fr_line := 10 |}]], [])%string.
 Proof. vm_compute. reflexivity. Qed.
